@@ -9,7 +9,7 @@ search.py:50-89).  Ghost fields (prefix g_) exist only in specifications.
 def declare(reg):
     reg.enum("asimap/client.py", "ClientState")
     reg.record("SearchArgs", {
-        "msg_set": "list[MsgElt]", "keyword": "str", "n": "int", "string": "str", "header": "str",
+        "msg_set": "list[MsgElt]", "keyword": "str", "n": "int", "string": "str", "header": "str", "search_key": "ref:IMAPSearch",
     })
     reg.classdef("PWUser", {"username": "str", "pw_hash": "str", "maildir": "opaque:Path"}, path="asimap/auth.py")
     reg.classdef(
@@ -40,7 +40,7 @@ def declare(reg):
         path="asimap/pop3_client.py",
     )
     # ghost view of the MH folder on disk: the set of message files (A-MH)
-    reg.classdef("MH", {"g_keys": "set[int]", "g_seqs": "defaultdict[str,set[int]]", "g_mtime": "int"})
+    reg.classdef("MH", {"g_keys": "set[int]", "g_seqs": "defaultdict[str,set[int]]", "g_mtime": "int", "g_content": "dict[int,int]"})
     reg.classdef(
         "Authenticated",
         {
@@ -127,6 +127,7 @@ def declare(reg):
             "_uid_vv": "opt[int]",
             "_msg_size": "opt[int]",
             "_sequences": "opt[list[str]]",
+            "_msg": "opt[opaque:EmailMessage]",
         },
         path="asimap/search.py",
     )
